@@ -15,10 +15,12 @@ def _base(v):
     return v
 
 
-def aliases(fn):
+def aliases(fn, seeds=None):
     """names that may denote (a view of) an object owned by the caller: parameters, entries / slices of them, loop variables over them
     or over literal sequences naming them"""
     ps = {a.arg for a in fn.args.posonlyargs + fn.args.args + fn.args.kwonlyargs if a.arg not in ('self', 'cls')}
+    if seeds is not None:
+        ps = set(seeds)
     alias = set(ps)
     grew = True
     while grew:
@@ -124,4 +126,68 @@ def shrinking_iteration(fn):
                                                   for t in st.targets):
                 out.append((lp, norm(it)))
                 break
+    return out
+
+
+_LIKE = ('np.zeros_like', 'np.empty_like', 'np.ones_like', 'np.full_like', 'numpy.zeros_like', 'numpy.empty_like', 'numpy.ones_like')
+_NEW = ('np.zeros', 'np.empty', 'np.ones', 'np.full', 'numpy.zeros', 'numpy.empty', 'numpy.ones', 'numpy.full')
+
+
+def typed_after_input(fn):
+    """[(allocation stmt, buffer, model argument, foreign store)]: a result buffer that takes its dtype from an argument array
+    (x_like(arg) without dtype=, or dtype=arg.dtype) and then receives values that do not come from that argument -- for an
+    integer-typed argument they are truncated."""
+    ps, alias, rebound = aliases(fn)
+    live = alias - rebound
+    out = []
+    for st in ast.walk(fn):
+        if not (isinstance(st, ast.Assign) and len(st.targets) == 1 and isinstance(st.targets[0], ast.Name) and isinstance(st.value, ast.Call)):
+            continue
+        c, model = st.value, None
+        d = dotted(c.func) or ''
+        if d in _LIKE and c.args and not any(k.arg == 'dtype' for k in c.keywords) and isinstance(_base(c.args[0]), ast.Name) and _base(c.args[0]).id in live:
+            model = _base(c.args[0]).id
+        elif d in _NEW:
+            for k in c.keywords:
+                if k.arg == 'dtype':
+                    ns = [x.id for x in ast.walk(k.value) if isinstance(x, ast.Name) and x.id in live]
+                    if ns:
+                        model = ns[0]
+        if model is None:
+            continue
+        buf = st.targets[0].id
+        for s2 in ast.walk(fn):
+            tg = s2.targets if isinstance(s2, ast.Assign) else ([s2.target] if isinstance(s2, ast.AugAssign) else [])
+            if any(isinstance(t, ast.Subscript) and isinstance(_base(t), ast.Name) and _base(t).id == buf for t in tg):
+                names = {x.id for x in ast.walk(s2.value) if isinstance(x, ast.Name)}
+                v = s2.value
+                same = isinstance(_base(v), ast.Name) and _base(v).id == model
+                if not same and not isinstance(v, ast.Constant):
+                    out.append((st, buf, model, s2))
+                    break
+    return out
+
+
+def alias_roots(fn):
+    """name -> parameters it may alias"""
+    out = {}
+    for a in fn.args.posonlyargs + fn.args.args + fn.args.kwonlyargs:
+        if a.arg in ('self', 'cls'):
+            continue
+        ps, al, rb = aliases(fn, seeds=[a.arg])
+        for n in al:
+            out.setdefault(n, set()).add(a.arg)
+    return out
+
+
+def optional_params(fn):
+    """parameters with a default of None"""
+    args = fn.args.args
+    out = set()
+    for a, d in zip(args[len(args) - len(fn.args.defaults):], fn.args.defaults):
+        if isinstance(d, ast.Constant) and d.value is None:
+            out.add(a.arg)
+    for a, d in zip(fn.args.kwonlyargs, fn.args.kw_defaults):
+        if isinstance(d, ast.Constant) and d.value is None:
+            out.add(a.arg)
     return out
